@@ -17,6 +17,7 @@ pub mod robs;
 pub mod rtc;
 pub mod rwlock;
 pub mod typed;
+pub mod wiring;
 
 pub type MuxResult = Result<(), ChMuxError<io::Error, io::Error>>;
 
@@ -284,19 +285,28 @@ pub fn upper_cfg(rng: &mut Rng) -> EpCfg {
 /// receive buffer, and a send with embedded ports only completes once the receiver has processed them).  Returns
 /// `None` if the send fails or the item does not arrive; never hangs.
 pub async fn xfer<T: remoc::RemoteSend>(tx: &mut base::Sender<T>, rx: &mut base::Receiver<T>, item: T) -> Option<T> {
+    xfer_why(tx, rx, item).await.ok()
+}
+
+/// Like `xfer`, with the reason of a failure.
+pub async fn xfer_why<T: remoc::RemoteSend>(tx: &mut base::Sender<T>, rx: &mut base::Receiver<T>, item: T) -> Result<T, String> {
     use futures::future::{Either, select};
     let send = Box::pin(tx.send(item));
     let recv = Box::pin(rx.recv());
     match select(send, recv).await {
-        Either::Left((Ok(()), recv)) => match cancel_after(recv, 20_000).await {
-            Some(Ok(Some(v))) => Some(v),
-            _ => None,
+        Either::Left((Ok(()), recv)) => match patient(recv, 20_000, 3000).await {
+            Some(Ok(Some(v))) => Ok(v),
+            Some(Ok(None)) => Err("sent, receiver ended".into()),
+            Some(Err(e)) => Err(format!("sent, recv error: {e}")),
+            None => Err("sent, never received".into()),
         },
-        Either::Left((Err(_), _recv)) => None,
-        Either::Right((Ok(Some(v)), send)) => match cancel_after(send, 20_000).await {
-            Some(Ok(())) => Some(v),
-            _ => None,
+        Either::Left((Err(e), _recv)) => Err(format!("send error: {}", e.kind)),
+        Either::Right((Ok(Some(v)), send)) => match patient(send, 20_000, 3000).await {
+            Some(Ok(())) => Ok(v),
+            Some(Err(e)) => Err(format!("received, send error: {}", e.kind)),
+            None => Err("received, send never completed".into()),
         },
-        Either::Right((_, _send)) => None,
+        Either::Right((Ok(None), _send)) => Err("receiver ended".into()),
+        Either::Right((Err(e), _send)) => Err(format!("recv error: {e}")),
     }
 }
